@@ -1,0 +1,37 @@
+//go:build verif
+
+/*
+Copyright The Helm Authors.
+
+Licensed under the Apache License, Version 2.0 (the "License");
+you may not use this file except in compliance with the License.
+You may obtain a copy of the License at
+
+    http://www.apache.org/licenses/LICENSE-2.0
+
+Unless required by applicable law or agreed to in writing, software
+distributed under the License is distributed on an "AS IS" BASIS,
+WITHOUT WARRANTIES OR CONDITIONS OF ANY KIND, either express or implied.
+See the License for the specific language governing permissions and
+limitations under the License.
+*/
+
+package getter
+
+import (
+	"net/http"
+	"time"
+)
+
+// VerifSetDefaultTransport makes every getter created through the built-in
+// HTTP provider (getter.All) use the given transport, so that code which
+// builds its providers internally (ChartPathOptions.LocateChart) can be run
+// against a simulated network. Passing nil restores the shipped behaviour.
+// Compiled only with the "verif" build tag.
+func VerifSetDefaultTransport(t *http.Transport) {
+	opts := []Option{WithTimeout(time.Second * DefaultHTTPTimeout)}
+	if t != nil {
+		opts = append(opts, WithTransport(t))
+	}
+	defaultOptions = opts
+}
